@@ -2,8 +2,8 @@ package chain
 
 import (
 	"fmt"
-	"os"
 	"math/big"
+	"os"
 	"time"
 
 	"github.com/ethereum/go-ethereum/common"
